@@ -62,6 +62,9 @@ def norm(t, pytd):
   if isinstance(t, pytd.CallableType):
     return "Callable[[%s], %s]" % (", ".join(norm(x, pytd) for x in t.args),
                                    norm(t.ret, pytd))
+  if isinstance(t, pytd.GenericType) and short(t.base_type.name) in (
+      "typing.ClassVar", "ClassVar") and len(t.parameters) == 1:
+    return norm(t.parameters[0], pytd)   # a value of that type when read
   if isinstance(t, pytd.GenericType):
     return "%s[%s]" % (short(t.base_type.name), ", ".join(
         norm(x, pytd) for x in t.parameters))
@@ -320,15 +323,93 @@ def derive_generic(ast, lines, expect, fexpect):
         fexpect[fn] = mt
 
 
-def derive_downstream(ast):
+def mentions_bare_generic(t, generic_names, pytd):
+  if isinstance(t, (pytd.ClassType, pytd.NamedType)):
+    return short(t.name) in generic_names
+  if isinstance(t, pytd.GenericType):
+    return any(mentions_bare_generic(x, generic_names, pytd)
+               for x in t.parameters)
+  if isinstance(t, pytd.UnionType):
+    return any(mentions_bare_generic(x, generic_names, pytd)
+               for x in t.type_list)
+  if isinstance(t, pytd.TupleType):
+    return any(mentions_bare_generic(x, generic_names, pytd)
+               for x in t.parameters)
+  return False
+
+
+def derive_probes(ast, src_a, lines, expect):
+  """Upstream probes: a module-level statement `up_x = <expr>` in A records
+  what A's own analysis infers for <expr>; B evaluates the same expression
+  through the stub (`dp_x = <expr with A's names prefixed by modA.>`) and
+  must get the type the stub declares for up_x."""
+  import ast as pyast
+  try:
+    tree = pyast.parse(src_a)
+  except SyntaxError:
+    return
+  top = set()
+  for node in tree.body:
+    if isinstance(node, (pyast.FunctionDef, pyast.ClassDef,
+                         pyast.AsyncFunctionDef)):
+      top.add(node.name)
+    elif isinstance(node, (pyast.Assign, pyast.AnnAssign)):
+      tgs = node.targets if isinstance(node, pyast.Assign) else [node.target]
+      for t in tgs:
+        if isinstance(t, pyast.Name):
+          top.add(t.id)
+  consts = {c.name.split(".")[-1]: c.type for c in ast.constants}
+
+  class Prefix(pyast.NodeTransformer):
+
+    def visit_Name(self, n):
+      if isinstance(n.ctx, pyast.Load) and n.id in top:
+        return pyast.copy_location(pyast.Attribute(
+            value=pyast.Name(id="modA", ctx=pyast.Load()), attr=n.id,
+            ctx=pyast.Load()), n)
+      return n
+
+  for node in tree.body:
+    if (isinstance(node, pyast.Assign) and len(node.targets) == 1 and
+        isinstance(node.targets[0], pyast.Name) and
+        node.targets[0].id.startswith("up_") and
+        node.targets[0].id in consts):
+      name = node.targets[0].id
+      expr = pyast.unparse(pyast.fix_missing_locations(
+          Prefix().visit(pyast.parse(pyast.unparse(node.value),
+                                     mode="eval").body)))
+      lines.append("dp_%s = %s" % (name[3:], expr))
+      expect["dp_" + name[3:]] = consts[name]
+
+
+def derive_downstream(ast, src_a=""):
   """-> (source of B, {name in B: expected pytd type})."""
   _, pytd, _, _ = _mods()
   lines = ["import modA"]
   expect = {}
+  derive_probes(ast, src_a, lines, expect)
   user = {c.name.split(".")[-1] for c in ast.classes}
+  generic_names = set()
+
+  def reg_generic(cs, prefix):
+    for c in cs:
+      q = prefix + c.name.split(".")[-1]
+      if params_of(c, pytd):
+        generic_names.add(q)
+      reg_generic(c.classes, q + ".")
+
+  reg_generic(ast.classes, "")
+  derive_downstream.generic_names = generic_names
   for c in ast.constants:
     n = c.name.split(".")[-1]
     if n.startswith("_"):
+      continue
+    if (isinstance(c.type, (pytd.ClassType, pytd.NamedType)) and
+        short(c.type.name) in generic_names):
+      # a generic class written bare: pytype prints it bare where it was
+      # declared and with the parameters' bounds filled in where it is
+      # re-exported (`held: Box` / `v_held: modA.Box[modA.Base]`): the same
+      # type in two spellings, not comparable as text
       continue
     lines.append("v_%s = modA.%s" % (n, n))
     expect["v_" + n] = c.type
@@ -405,7 +486,7 @@ def check_upstream(ctx, prog):
   except Exception as e:  # pylint: disable=broad-except
     ctx.event("upstream-analysis-raised:" + type(e).__name__)
     return
-  src_b, expect = derive_downstream(ra.ast)
+  src_b, expect = derive_downstream(ra.ast, src_a)
   fexpect = derive_downstream.fexpect
   if len(expect) + len(fexpect) < 2:
     ctx.event("upstream-exports-too-little")
@@ -476,6 +557,12 @@ def check_upstream(ctx, prog):
         ctx.check(False, "re-exported-name-missing[%s]" % cname,
                   "%s not in downstream stub" % name, dict(case, config=cname))
         continue
+      if norm(got, pytd) != norm(want, pytd) and mentions_bare_generic(
+          want, derive_downstream.generic_names, pytd):
+        # `Box` where it was declared, `Box[<bound>]` where it is re-exported:
+        # two spellings of one type
+        ctx.event("unverifiable:bare-generic-class-in-declaration")
+        continue
       ctx.check(norm(got, pytd) == norm(want, pytd),
                 "type-changed-through-stub[%s]:%s" % (cname,
                                                       name.split("_")[0]),
@@ -517,6 +604,87 @@ def check_upstream(ctx, prog):
 
 
 FIXED = [
+    # @final on a nested class only (fix eb2443c), on methods, at top level
+    """from typing import final
+class Outer:
+  @final
+  class Inner:
+    x = 1
+  def mk(self):
+    return Outer.Inner()
+o = Outer()
+i = Outer.Inner()
+""",
+    """from typing import final
+@final
+class Top:
+  x = 1
+class K:
+  @final
+  def m(self):
+    return 1
+  class N:
+    @final
+    def deep(self):
+      return "s"
+k = K()
+n = K.N()
+t = Top()
+""",
+    # probes (up_x in A, the same expression through the stub in B): bare
+    # generic classes with bounded / constrained parameters, ClassVar unions,
+    # an alias whose name is a suffix of the class's name
+    """from typing import ClassVar, Generic, Optional, TypeVar, Union
+class Base:
+  n = 1
+class Derived(Base): pass
+T = TypeVar('T', bound=Base)
+S = TypeVar('S', int, str)
+class Box(Generic[T]):
+  def __init__(self, v: T):
+    self.v = v
+  def get(self) -> T:
+    return self.v
+class Pick(Generic[S]):
+  def __init__(self, v: S):
+    self.v = v
+  def get(self) -> S:
+    return self.v
+def mk() -> Box:
+  return Box(Derived())
+def mp() -> Pick:
+  return Pick(1)
+held: Box = Box(Base())
+class K:
+  default: ClassVar[Optional[int]] = None
+  both: ClassVar[Union[int, str]] = 1
+  plain: ClassVar[int] = 0
+  def __init__(self):
+    self.own = 1.5
+class MyError(Exception):
+  code = 1
+Error = MyError
+class Outer:
+  class Error(Exception):
+    code = "s"
+def fail():
+  return Error()
+e = Error()
+k = K()
+up_1 = mk().get()
+up_2 = held.v
+up_3 = mp().get()
+up_4 = K.default
+up_5 = K().both
+up_6 = K.plain
+up_7 = Error()
+up_8 = fail()
+up_9 = Error().code
+up_10 = Outer.Error().code
+up_11 = k.default
+up_12 = held.get()
+up_14 = [Error(), MyError()]
+""",
     # generic classes: members typed by the class's parameters, read through
     # differently parameterised instances
     """from typing import Dict, Generic, List, Optional, Tuple, TypeVar
